@@ -968,6 +968,11 @@ pub fn drive(tier: &str) -> i32 {
     let nops = if quick { 10 } else { OPERANDS.len() };
     let nexpr = Gen { nops }.exprs().len();
     let mut cases = vec![];
+    // the small judged groups first (a run that is cut short by the wall clock has at least covered them)
+    cases.push(json!({"g": "call-pairs"}));
+    cases.push(json!({"g": "deftype-between"}));
+    cases.push(json!({"g": "byref"}));
+    cases.push(json!({"g": "redim-type"}));
     let total = (nexpr * CONTEXTS.len()) as u64;
     let mut lo = 0;
     while lo < total {
@@ -980,10 +985,6 @@ pub fn drive(tier: &str) -> i32 {
         cases.push(json!({"g": "calls", "lo": lo, "hi": (lo + 120).min(ctotal)}));
         lo += 120;
     }
-    cases.push(json!({"g": "call-pairs"}));
-    cases.push(json!({"g": "deftype-between"}));
-    cases.push(json!({"g": "byref"}));
-    cases.push(json!({"g": "redim-type"}));
     let total_cases = cases.len();
     let cap = run.wall_cap_s;
     let t0 = run.reporter.start;
